@@ -846,14 +846,65 @@ type MonC22 struct {
 	seen    map[uint64]bool
 	lastID  uint64
 	classes map[string]bool
+	owner   map[string]types.Address // ticker -> owner according to the accepted transactions (model)
+	dirty   map[string]bool          // tickers whose ownership is not modelled any more (unknown sender)
 }
 
 func (m *MonC22) Genesis(w *World) {
 	m.seen, m.classes = map[uint64]bool{}, map[string]bool{}
-	for id := range w.Prev.Coins {
+	m.owner, m.dirty = map[string]types.Address{}, map[string]bool{}
+	for id, c := range w.Prev.Coins {
 		m.seen[id] = true
+		if c.Version == 0 && c.OwnerAddress != nil {
+			m.owner[c.Symbol.String()] = *c.OwnerAddress
+		}
 	}
 	m.checkUnique(w, w.Prev, w.Sc.InitialH-1)
+}
+
+// AfterTx keeps the ownership model: only the ticker owner recreates, re-owns or mints.
+func (m *MonC22) AfterTx(w *World, b *BlockCtx, tm *TxMeta, r abci.ResponseDeliverTx) {
+	if r.Code != 0 {
+		return
+	}
+	var sym string
+	var newOwner *types.Address
+	needOwner := false
+	switch d := tm.Data.(type) {
+	case transaction.CreateCoinData:
+		sym, newOwner = d.Symbol.String(), &tm.Sender
+	case transaction.CreateTokenData:
+		sym, newOwner = d.Symbol.String(), &tm.Sender
+	case transaction.RecreateCoinData:
+		sym, newOwner, needOwner = d.Symbol.String(), &tm.Sender, true
+	case transaction.RecreateTokenData:
+		sym, newOwner, needOwner = d.Symbol.String(), &tm.Sender, true
+	case transaction.EditCoinOwnerData:
+		o := d.NewOwner
+		sym, newOwner, needOwner = d.Symbol.String(), &o, true
+	case transaction.MintTokenData:
+		if c := b.Prev.Coins[uint64(d.Coin)]; c != nil && c.Version == 0 {
+			sym, needOwner = c.Symbol.String(), true
+		} else {
+			return
+		}
+	default:
+		return
+	}
+	if tm.Garbage || tm.Malleated {
+		m.dirty[sym] = true // a well-formed accident of mutated bytes: sender unknown to the harness
+		return
+	}
+	if needOwner && !m.dirty[sym] {
+		if o, ok := m.owner[sym]; ok && o != tm.Sender {
+			w.Report("C22", "registry", "not-owner:"+tm.Kind, fmt.Sprintf("height %d: %s of ticker %s by %s accepted, the accepted transactions so far make %s its owner", b.Height, tm.Kind, sym, tm.Sender.String(), o.String()), b.Height)
+			return
+		}
+		w.Probe("c22_owner_action_checked")
+	}
+	if newOwner != nil {
+		m.owner[sym] = *newOwner
+	}
 }
 
 func (m *MonC22) checkUnique(w *World, s *Snap, h int64) {
@@ -885,6 +936,22 @@ func (m *MonC22) AfterBlock(w *World, b *BlockCtx) {
 	m.checkUnique(w, b.Cur, b.Height)
 	if w.Viol != nil {
 		return
+	}
+	// the committed registry names the owner the accepted transactions made
+	for _, id := range b.Cur.CoinIDs {
+		c := b.Cur.Coins[id]
+		sym := c.Symbol.String()
+		if c.Version != 0 || m.dirty[sym] {
+			continue
+		}
+		if o, ok := m.owner[sym]; ok && (c.OwnerAddress == nil || *c.OwnerAddress != o) {
+			got := "nobody"
+			if c.OwnerAddress != nil {
+				got = c.OwnerAddress.String()
+			}
+			w.Report("C22", "registry", "owner-not-recorded", fmt.Sprintf("height %d: ticker %s (coin %d): accepted transactions make %s the owner, the committed state says %s", b.Height, sym, id, o.String(), got), b.Height)
+			return
+		}
 	}
 	var fresh []uint64
 	for _, id := range b.Cur.CoinIDs {
@@ -1042,6 +1109,15 @@ func init() {
 				extra := GenBlocks(r, &p, 110, sc.Gen.NAcct, sc.Gen.NVal, sc.Node.Period, sc.InitialH+int64(len(sc.Blocks)))
 				sc.Blocks = append(sc.Blocks, extra...)
 			}
+			// the node is restarted now and then (a restart must not open a new grace period)
+			if r.Intn(2) == 0 {
+				sc.Params = map[string]int64{"main_restart": 1}
+				for i := range sc.Blocks {
+					if i > 0 && r.Intn(30) == 0 {
+						sc.Blocks[i].Restart = true
+					}
+				}
+			}
 			return sc
 		},
 		Monitors: func(sc *Scenario) []Monitor { return []Monitor{&MonC18{}} },
@@ -1073,7 +1149,7 @@ func init() {
 			}
 			return out
 		},
-		ExpectProbes: []string{"c22_block_checked", "c22_new_coin", "c22_recreated"},
+		ExpectProbes: []string{"c22_block_checked", "c22_new_coin", "c22_recreated", "c22_owner_action_checked"},
 	})
 }
 
